@@ -35,8 +35,12 @@ pub fn parse_header_value(input: &str) -> Vec<(&str, f32)> {
             for p in params {
                 if p.trim_start().starts_with("q=") {
                     if let Ok(val) = f32::from_str(p.trim_start()[2..].trim()) {
-                        value = val;
-                        break;
+                        // "NaN" and "inf" parse as floats but are not weights: sorting by them
+                        // is not a total order (the sort may panic)
+                        if val.is_finite() {
+                            value = val;
+                            break;
+                        }
                     }
                 }
             }
